@@ -754,7 +754,7 @@ func ruleASM(w *World, r *Report) map[string]*asmPre {
 // ---------------------------------------------------------------------------
 // KGUARD
 
-const ruleKGUARDText = "Go-side preconditions of the kernels: every non-test call of an assembly kernel is dominated by the guards the ASM analysis emitted - len(in) >= the SIMD stride (a smaller constant is a violation), len(out) == len(in) (the dominating panic), a non-empty tail before the scalar kernels on both ways of reaching them (len(in) != 0 when start is 0; start != len(in) after the SIMD part), the tail offset len - len%K uses K equal to the stride, in/out are sliced from the same start; the unsafe slice casts scale length and capacity by exactly the element size"
+const ruleKGUARDText = "Go-side preconditions of the kernels: every non-test call of an assembly kernel is dominated by the guards the ASM analysis emitted - len(in) >= the SIMD stride (a smaller constant is a violation), len(out) == len(in) (the dominating panic), a non-empty tail before the scalar kernels on both ways of reaching them (len(in) != 0 when start is 0; start != len(in) after the SIMD part), the tail offset len - len%K uses K equal to the stride, in/out are sliced from the same start; the unsafe slice casts scale length and capacity by exactly the element size; the fixed-size output blocks handed to one call of a block kernel are disjoint"
 
 func ruleKGUARD(w *World, r *Report, pres map[string]*asmPre) {
 	r.rule("KGUARD", ruleKGUARDText)
@@ -798,6 +798,59 @@ func ruleKGUARD(w *World, r *Report, pres map[string]*asmPre) {
 					facts = append(facts, fmt.Sprintf("len(%s) >= %d", p, min))
 				} else {
 					problems = append(problems, fmt.Sprintf("the kernel needs len(%s) >= %d (%s) but %s", p, min, map[bool]string{true: "its loop runs at least once", false: "it reads that many bytes"}[true], why))
+				}
+			}
+			// fixed-size output blocks of one call are disjoint: an accumulating kernel that is given
+			// overlapping out blocks adds the overlap twice (which cancels in characteristic 2)
+			{
+				type blk struct {
+					name string
+					arg  ssa.Value
+					n    int64
+				}
+				var outs []blk
+				for i := 0; i < callee.Signature.Params().Len(); i++ {
+					prm := callee.Signature.Params().At(i)
+					if pt, ok := prm.Type().Underlying().(*types.Pointer); ok && strings.HasPrefix(prm.Name(), "out") {
+						if at, ok := pt.Elem().Underlying().(*types.Array); ok {
+							outs = append(outs, blk{prm.Name(), c.Common().Args[i], at.Len()})
+						}
+					}
+				}
+				strip := func(v ssa.Value) ssa.Value {
+					for {
+						switch x := v.(type) {
+						case *ssa.Convert:
+							v = x.X
+						case *ssa.ChangeType:
+							v = x.X
+						default:
+							return v
+						}
+					}
+				}
+				for i := 0; i < len(outs); i++ {
+					for j := i + 1; j < len(outs); j++ {
+						a, aok := strip(outs[i].arg).(*ssa.IndexAddr)
+						b, bok := strip(outs[j].arg).(*ssa.IndexAddr)
+						disjoint := false
+						if aok && bok && a.X == b.X {
+							ca, ok1 := a.Index.(*ssa.Const)
+							cb, ok2 := b.Index.(*ssa.Const)
+							if ok1 && ok2 {
+								d := ca.Int64() - cb.Int64()
+								if d < 0 {
+									d = -d
+								}
+								disjoint = d >= outs[i].n
+							}
+						}
+						if disjoint {
+							facts = append(facts, fmt.Sprintf("%s and %s are disjoint blocks", outs[i].name, outs[j].name))
+						} else {
+							problems = append(problems, fmt.Sprintf("the blocks passed as %s and %s are not shown to be disjoint (constant offsets at least %d apart in the same slice): where they overlap, the kernel's result is applied twice", outs[i].name, outs[j].name, outs[i].n))
+						}
+					}
 				}
 			}
 			if len(problems) == 0 {
